@@ -236,13 +236,13 @@ def hardcoded_password_default(context):
     # looks for "def function(candidate='some_string')"
 
     # this pads the list of default values with "None" if nothing is given
-    defs = [None] * (
-        len(context.node.args.args) - len(context.node.args.defaults)
-    )
+    # positional-only parameters share args.defaults with args.args
+    params = context.node.args.posonlyargs + context.node.args.args
+    defs = [None] * (len(params) - len(context.node.args.defaults))
     defs.extend(context.node.args.defaults)
 
     # go through all (param, value)s and look for candidates
-    for key, val in zip(context.node.args.args, defs):
+    for key, val in zip(params, defs):
         if isinstance(key, (ast.Name, ast.arg)):
             # Skip if the default value is None
             if val is None or (
